@@ -451,25 +451,31 @@ be_filter_read_nolock_(struct bufferevent *underlying, void *me_)
 		else
 			state = BEV_NORMAL;
 
-		/* XXXX use return value */
-		res = be_filter_process_input(bevf, state, &processed_any);
-		(void)res;
-
 		/* XXX This should be in process_input, not here.  There are
 		 * other places that can call process-input, and they should
 		 * force readcb calls as needed. */
-		if (processed_any) {
-			bufferevent_trigger_nolock_(bufev, EV_READ, 0);
-			if (evbuffer_get_length(underlying->input) > 0 &&
-				be_readbuf_full(bevf, state)) {
-				/* data left in underlying buffer and filter input buffer
-				 * hit its read high watermark.
-				 * Schedule callback to avoid data gets stuck in underlying
-				 * input buffer.
-				 */
-				evbuffer_cb_set_flags(bufev->input, bevf->inbuf_cb,
-					EVBUFFER_CB_ENABLED);
-			}
+		do {
+			processed_any = 0;
+			res = be_filter_process_input(bevf, state, &processed_any);
+			if (processed_any)
+				bufferevent_trigger_nolock_(bufev, EV_READ, 0);
+			/* If the read callback drained the input below the high
+			 * watermark, go on with what is left in the underlying
+			 * input buffer: nobody else will come back for it. */
+		} while (processed_any && res == BEV_OK &&
+		    (bufev->enabled & EV_READ) &&
+		    evbuffer_get_length(underlying->input) > 0 &&
+		    !be_readbuf_full(bevf, state));
+
+		if (evbuffer_get_length(underlying->input) > 0 &&
+			be_readbuf_full(bevf, state)) {
+			/* data left in underlying buffer and filter input buffer
+			 * hit its read high watermark.
+			 * Schedule callback to avoid data gets stuck in underlying
+			 * input buffer.
+			 */
+			evbuffer_cb_set_flags(bufev->input, bevf->inbuf_cb,
+				EVBUFFER_CB_ENABLED);
 		}
 	}
 }
